@@ -221,7 +221,7 @@ def model_check(spec_dir, module, cfg, work, tag, actions=(), workers=16, timeou
 
 
 def generate(spec_dir, module, cfg, work, tag, marker="@@B", workers=8, simulate=None, timeout=1800, env=None,
-             heap="8g", extra=None):
+             heap="8g", extra=None, cap=None):
     """P2: run TLC and collect the JSON lines it prints (Print with marker). Returns list of objects.
     The spec prints behaviours from an invariant/constraint; TLC must end normally."""
     if simulate:
@@ -236,7 +236,15 @@ def generate(spec_dir, module, cfg, work, tag, marker="@@B", workers=8, simulate
     res = []
     seen = set()
     pat = re.compile(r'<<"' + re.escape(marker) + r'", (".*")>>\s*$')
-    for ln in out.splitlines():
+    lines = out.splitlines()
+    if cap is not None:
+        # very large behaviour sets: keep a seeded sample of `cap` printed lines (BFS prints every history once)
+        marked = [i for i, ln in enumerate(lines) if marker in ln]
+        if len(marked) > cap:
+            rnd = random.Random(SEED)
+            keep = set(rnd.sample(marked, cap))
+            lines = [ln for i, ln in enumerate(lines) if i in keep or marker not in ln]
+    for ln in lines:
         m = pat.search(ln)
         if not m:
             continue
